@@ -1,0 +1,38 @@
+//go:build verif
+
+// Contracts for the deductive verifier in /verif (govc). Comment-only: with the
+// verif tag off the compiler never sees this file, with it on it adds no code.
+package main
+
+// ---- C35 / C36: decision structure of formatBytes over ghost output events ----
+// Ghost state (declared in /verif/trusted/shfmt.spec): evPrint counts fmt.Print/Println calls (the -l listing),
+// evFileWrite counts renameio WriteFile calls and wrPath/wrData/wrPerm record its arguments, evStdoutWrite counts
+// writes to os.Stdout, evCompare/lastEqual record the bytes.Equal(src, res) decision, lastBufBytes the printer
+// output, lstat* the most recent os.Lstat.
+//
+// differs := the comparison was made and said "not equal".
+
+//@ func formatBytes
+//@ props C35 C36
+//@ nosafety
+//@ stable list write diff errFormattingDiffers
+//@ returns (err)
+//@ assume [sentinel-non-nil] errFormattingDiffers != nil
+//@ ensures [compare-once] evCompare == old(evCompare) || evCompare == old(evCompare) + 1
+//@ ensures [same-is-silent] implies(evCompare == old(evCompare) + 1 && lastEqual,
+//@     evPrint == old(evPrint) && evFileWrite == old(evFileWrite) && err == nil)
+//@ ensures [no-compare-no-output] implies(evCompare == old(evCompare), evPrint == old(evPrint) && evFileWrite == old(evFileWrite))
+//@ ensures [listed-iff] implies(evCompare == old(evCompare) + 1 && !lastEqual,
+//@     evPrint - old(evPrint) == ite(list.val == "true", 1, ite(list.val == "0", 2, 0)))
+//@ ensures [written-only-if] evFileWrite == old(evFileWrite) || (evFileWrite == old(evFileWrite) + 1 &&
+//@     evCompare == old(evCompare) + 1 && !lastEqual && write.val &&
+//@     lstatOK && lstatPath == path && modeIsRegular(lstatMode) &&
+//@     wrPath == path && wrPerm == modePerm(lstatMode) && wrData == lastBufBytes)
+//@ ensures [written-if] implies(evCompare == old(evCompare) + 1 && !lastEqual && write.val && lstatOK && modeIsRegular(lstatMode),
+//@     evFileWrite == old(evFileWrite) + 1)
+//@ ensures [status-differs-only-if] implies(err == errFormattingDiffers && evCompare == old(evCompare) + 1 && !write.val,
+//@     !lastEqual && (diff.val || list.val != "false"))
+//@ ensures [status-differs-if] implies(evCompare == old(evCompare) + 1 && !lastEqual && !write.val && (diff.val || list.val != "false"),
+//@     err == errFormattingDiffers)
+//@ ensures [dump-iff] implies(err == nil && evCompare == old(evCompare) + 1,
+//@     evStdoutWrite - old(evStdoutWrite) == ite(list.val == "false" && !write.val && !diff.val, 1, 0))
